@@ -1,4 +1,5 @@
 import Mutiny.Model.Ring
+import Mutiny.Model.Ring32
 import Mutiny.Model.LockRing
 import Mutiny.Model.Handles
 import Mutiny.Model.IncAvg
@@ -82,6 +83,52 @@ def ringMachine : Machine RingD where
     | "len" => some (toString (d.s.tail - d.s.head))
     | _ => none
   describe d t := reprStr (d.s.thr t) ++ s!" head={d.s.head} tail={d.s.tail} enqTail={d.s.enqTail} deqHead={d.s.deqHead} origin={d.origin}"
+  cmpVal tag := tag != "am.len" && tag != "am.p.fetch" && tag != "am.c.fetch" && tag != "am.c.chkhead"
+
+/-! ### M1/32 Ring32 — the `u32` arithmetic of the source; counters start at the residue `origin`; hook values compared as they are -/
+structure Ring32D where
+  s : Mutiny.Ring.St
+  /-- a checked arithmetic operation of the model overflowed (the checked build of the code panics there) -/
+  panicked : Bool
+
+open Mutiny in
+def ring32Machine : Machine Ring32D where
+  call d t op args :=
+    if d.panicked then none else
+    let s := d.s
+    let idle := s.thr t == .idle
+    let upd (a : Ring.Act) : Option Ring32D := (Ring32.apply32 s a).map fun s' => { d with s := s' }
+    match op, args with
+    | "send", [v]  => if idle then upd (.send t v.toNat!) else none
+    | "recv", []   => if idle then upd (.recv t) else none
+    | "len", []    => if idle then upd (.len t) else none
+    | "reserve", [] => if idle then upd (.reserve t) else none
+    | "fill", [v]  => match s.thr t with
+                      | .rHold _ => upd (.fill t v.toNat!)
+                      | _ => none
+    | "pubidx", [] => match s.thr t with
+                      | .rHold _ => upd (.pubIdx t)
+                      | _ => none
+    | "canidx", [] => match s.thr t with
+                      | .rHold _ => upd (.canIdx t)
+                      | _ => none
+    | _, _ => none
+  tag d t := if d.panicked then none else Ring.tagOf (d.s.thr t)
+  step d t := match Ring32.step32 d.s t with
+    | some s' => { d with s := s' }
+    | none => { d with panicked := true }
+  result d t := if d.panicked then some "panic" else match d.s.thr t with
+    | .done r => some r.show
+    | .rRet _ r => some r.show
+    | _ => none
+  ack d t := match Ring32.apply32 d.s (.ack t) with
+    | some s' => { d with s := s' }
+    | none => d
+  observe d k := match k with
+    | "abs" => some (showList (Ring.abs { d.s with head := d.s.delivered.length }))
+    | "len" => some (toString (Mutiny.U32.len32 d.s.tail d.s.head))
+    | _ => none
+  describe d t := reprStr (d.s.thr t) ++ s!" head={d.s.head} tail={d.s.tail} enqTail={d.s.enqTail} deqHead={d.s.deqHead} panicked={d.panicked}"
   cmpVal tag := tag != "am.len" && tag != "am.p.fetch" && tag != "am.c.fetch" && tag != "am.c.chkhead"
 
 /-! ### M2 LockRing -/
@@ -386,6 +433,7 @@ def mkMachine (kv : List (String × String)) : Option AnyMachine :=
   let n := ((lookup kv "N").getD "0").toNat!
   match lookup kv "model" with
   | some "ring" => some { σ := _, m := ringMachine, s := { s := Mutiny.Ring.init n, origin := ((lookup kv "origin").getD "0").toNat! } }
+  | some "ring32" => some { σ := _, m := ring32Machine, s := { s := Mutiny.Ring32.init32 n (((lookup kv "origin").getD "0").toNat!), panicked := false } }
   | some "lockring" => some { σ := _, m := lockRingMachine, s := Mutiny.LockRing.init n }
   | some "incavg" => some { σ := _, m := incAvgMachine, s := Mutiny.IncAvg.init }
   | some "stack" => some { σ := _, m := stackMachine, s := Mutiny.Stack.init n }
